@@ -6,10 +6,12 @@ namespace FV.Drv.C17
 open FV FV.C17
 
 /-! The harness's own interpretations (fv/harness/c17_rt.py): P, and W = PrioritizedInterpretation(W1, W2, W3). -/
-def userLeaves : List String := ["P", "W1", "W2", "W3", "Q"]
+def userLeaves : List String := ["P", "W1", "W2", "W3", "Q", "Shift", "Traced", "Other"]
 def userChains : List (String × List String) := [("W", ["W1", "W2", "W3"])]
 def userRules : List (String × List String) :=
-  [("P", ["a", "bin"]), ("W2", ["b"]), ("W3", ["a", "b"]), ("Q", ["b"])]
+  [("P", ["a", "bin"]), ("W2", ["b"]), ("W3", ["a", "b"]), ("Q", ["b"]),
+   -- a two-level StatefulInterpretation hierarchy: rules_of class = the class's OWN registry
+   ("Shift", ["a"]), ("Traced", ["b"]), ("Other", ["bin"])]
 
 /-- funsor's tables (regenerated from /repo) + the harness's. -/
 def env : Env :=
